@@ -549,7 +549,7 @@ def c03_check(ctx, rep, corr, comp, obj, pdu, trig, family, shrinkable=True, fix
     return r
 
 
-def wire_pdus(rng, comp, exhaustive_bits=8, samples=12, cap=600):
+def wire_pdus(rng, comp, exhaustive_bits=8, samples=12, cap=600, cap_all=False, only=None):
     """canonical PDUs built by direct bit placement (odxgen.refpdu) for a simple-tier composite:
     every raw value of value slots <= exhaustive_bits wide (one slot varied at a time around a random base),
     sampled/boundary raw values of wider ones.  Yields (pdu, expected value tree, trig)."""
@@ -580,7 +580,7 @@ def wire_pdus(rng, comp, exhaustive_bits=8, samples=12, cap=600):
     cur = {p: rng.choice(v) for p, v in base.items()}
     n = 0
     seen = set()
-    for s in vslots or [None]:
+    for s in ([x for x in vslots if only is None or x.path in only] or [None]):
         for r in (base[s.path] if s else [None]):
             raws = dict(cur)
             if s:
@@ -593,9 +593,10 @@ def wire_pdus(rng, comp, exhaustive_bits=8, samples=12, cap=600):
                 continue
             seen.add(pdu)
             yield pdu, exp, trig
-            n += 1
+            if cap_all or s is None or s.n > exhaustive_bits:
+                n += 1              # (enumeration families) the cap only limits sampled wide objects; small ones are exhaustive
             if n >= cap:
-                return
+                break
 
 
 # ------------------------------------------------------------------ C03: compu methods
